@@ -346,6 +346,23 @@ fn oracle(case: &Case) -> Report {
         Ok(mut wb) => drive(&mut wb, case, "ods", None, &mut rep),
         Err(e) => rep.fail(e),
     }
+    // the same through the auto-detecting wrapper, which has to forward the option to the reader it wraps
+    if !rep.failed() {
+        let mut all: Vec<(&str, Vec<u8>)> = vec![("xlsx", xlsx_bytes(case)), ("xlsb", xlsb_bytes(case)), ("ods", ods_bytes(case))];
+        if fits_xls {
+            all.push(("xls", xls_bytes(case)));
+        }
+        for (fmt, bytes) in all {
+            match guard(|| calamine::open_workbook_auto_from_rs(Cursor::new(bytes))) {
+                Ok(Ok(mut wb)) => drive(&mut wb, case, &format!("{fmt} through open_workbook_auto_from_rs"), None, &mut rep),
+                Ok(Err(e)) => rep.fail(format!("{fmt}: open_workbook_auto_from_rs: {e:?}")),
+                Err(p) => rep.fail(format!("{fmt}: open_workbook_auto_from_rs: {p}")),
+            }
+            if rep.failed() {
+                return rep;
+            }
+        }
+    }
     let rows: Vec<u32> = case.cells.iter().map(|(p, _)| p.0).collect();
     let (first, last) = (*rows.iter().min().unwrap(), *rows.iter().max().unwrap());
     let mut nt = false;
